@@ -849,6 +849,10 @@ class ExcelCompiler:
             self._gen_graph(address)
         cell = self.cell_map[address]
 
+        if self.cycles and isinstance(cell, _CellRange):
+            # ranges are re-read in every iteration
+            return self._evaluate_range(address)
+
         # calculate the cell value for formulas and ranges
         if cell.needs_calc:
             if isinstance(cell, _CellRange) or cell.address.is_unbounded_range:
